@@ -29,7 +29,7 @@ ASSUMPTIONS = [
     'handlers run for failing notifications as for failing calls (the statement does not exempt them)',
     'events of different batch elements may interleave; only the per-element sequences are compared',
 ]
-SHARDS = {'quick': 4, 'thorough': 16}
+SHARDS = {'quick': 8, 'thorough': 16}
 TIMEOUT = {'quick': 400, 'thorough': 2400}
 ANCHORS = [
     ('pjrpc/server/dispatcher.py', 'Dispatcher.__init__'), ('pjrpc/server/dispatcher.py', 'AsyncDispatcher.__init__'),
@@ -37,13 +37,15 @@ ANCHORS = [
     ('pjrpc/server/dispatcher.py', 'Dispatcher.dispatch'), ('pjrpc/server/dispatcher.py', 'AsyncDispatcher.dispatch'),
 ]
 MW_KINDS = ['P', 'S', 'Q', 'R', 'A']     # A = answers every request itself, notifications included
+# U = returns UNSET for every request, calls included (MiddlewareResponse allows it): nothing is sent for that element
+EXTRA_MW_KINDS = ['U']
 TABLES = ['none', 'generic', 'per-code', 'both', 'two-per-key', 'replace-generic', 'replace-per-code', 'annotate', 'same-callable']
-FLOORS = {'*': {**{f'mw:{k}:depth{d}': 20 for k in MW_KINDS for d in range(3)},
+FLOORS = {'*': {**{f'mw:{k}:depth{d}': 20 for k in MW_KINDS + EXTRA_MW_KINDS for d in range(3)},
                 **{f'table:{t}:failing': 20 for t in TABLES if t != 'none'},
                 **{f'table:{t}:batch': 5 for t in TABLES}, **{f'table:{t}:notification': 5 for t in TABLES},
                 'flavour:sync': 500, 'flavour:async': 500, 'flavour:async-suspending': 500, 'flavour:async-sequential': 500, 'flavour:async-awaitables': 500,
                 'flavour:flask-endpoint': 100, 'flavour:aiohttp-endpoint': 100, 'rejected-documents': 100,
-                'short-circuit': 300, 'handler-events': 500}}
+                'short-circuit': 300, 'handler-events': 500, 'middleware-returns-UNSET-for-a-call': 100}}
 
 EVENTS = []
 
@@ -66,6 +68,8 @@ def make_mw(kind, idx, flavour):
         return request
 
     def short(request):
+        if kind == 'U':
+            return UNSET
         if kind == 'A':
             return v20.Response(id=request.id, result=['answered', idx])       # "whatever the chain returns is what is sent"
         return UNSET if request.id is None else v20.Response(id=request.id, result=['short', idx])
@@ -78,7 +82,7 @@ def make_mw(kind, idx, flavour):
     if flavour == 'sync':
         def mw(request, context, handler):
             pre(request, context)
-            if kind in ('S', 'A'):
+            if kind in ('S', 'A', 'U'):
                 out = short(request)
             else:
                 out = rewrite_response(handler(rewrite_request(request), context))
@@ -97,7 +101,7 @@ def make_mw(kind, idx, flavour):
         pre(request, context)
         if suspend:
             await asyncio.sleep(0)
-        if kind in ('S', 'A'):
+        if kind in ('S', 'A', 'U'):
             out = short(request)
         else:
             out = rewrite_response(await handler(rewrite_request(request), context))
@@ -150,7 +154,7 @@ def make_handlers(tspec, flavour):
             for key, actions in tspec.items()}
 
 
-RAISED_CODES = [-32601, -32602, -32000, 1234, world.TYPED_CODE]
+RAISED_CODES = [-32601, -32602, -32000, 1234, world.TYPED_CODE, -32603]
 
 
 def table_spec(name):
@@ -193,6 +197,9 @@ DOCS = {
     'call-rpcerr': docs.obj(id=4, method='rpcerr', params=[1234, 'app', {'d': 1}]),
     'call-typed': docs.obj(id=5, method='typed', params=['td']),
     'call-exc': docs.obj(id=6, method='boom', params=['ValueError', 'x']),
+    # handling fails outside the method body (the view cannot be built): an internal error like any other failure
+    'call-internal': docs.obj(id=7, method='broken.vm', params=[1]),
+    'notify-internal': docs.obj(method='broken.vm'),
     'notify-ok': docs.obj(method='ok', params=['t0']),
     'notify-exc': docs.obj(method='boom', params=['KeyError', 'x']),
     'notify-rpcerr': docs.obj(method='rpcerr', params=[1234, 'app']),
@@ -221,13 +228,16 @@ def expected_element(el, stack, table, ctx_token):
     short_at = None
     for i, k in enumerate(stack):
         events.append(('enter', i, t))
-        if k in ('S', 'A'):
+        if k in ('S', 'A', 'U'):
             short_at = i
             break
         if k == 'Q' and cur['method'] == 'ok' and isinstance(cur.get('params'), list) and cur['params']:
             cur = dict(cur, params=[cur['params'][0], f'q{i}'])
     executions = []
-    if short_at is not None and stack[short_at] == 'A':
+    if short_at is not None and stack[short_at] == 'U':
+        resp = None
+        depth = short_at
+    elif short_at is not None and stack[short_at] == 'A':
         resp = {'jsonrpc': '2.0', 'id': el.get('id'), 'result': ['answered', short_at]}
         depth = short_at
     elif short_at is not None:
@@ -345,6 +355,8 @@ def run_case(ctx, stack, table, doc_name, flavour):
             ctx.hit('handler-events')
         if 'S' in stack or 'A' in stack:
             ctx.hit('short-circuit')
+        if 'U' in stack:
+            ctx.hit('middleware-returns-UNSET-for-a-call')
     if any_failing:
         ctx.hit(f'table:{table}:failing')
     if isinstance(info.doc, list):
@@ -419,6 +431,8 @@ def gen(ctx):
     stacks = [[]]
     for n in (1, 2, 3) + ((4,) if deep else ()):
         stacks += [list(s) for s in itertools.product(MW_KINDS, repeat=n)]
+    # the UNSET-returning kind: alone, and next to pass-through / response-rewriting middlewares at every depth
+    stacks += [['U']] + [list(s) for n in (2, 3) for s in itertools.product(['P', 'R', 'U'], repeat=n) if s.count('U') == 1]
     k = 0
     names = list(DOCS)
     for stack in stacks:
